@@ -199,6 +199,173 @@ class CUnit:
             return ' '.join(n['_as'].split())
         return ' '.join(self._raw_src(n).split())
 
+    def members_written_by_call(self, fname: str) -> Set[str]:
+        """'.member' keys a call of fname may store into: the stores of fname and of everything it reaches inside the unit;
+        '<call>' (anything) for a Python callback; nothing for other library functions (they do not know the struct)."""
+        if not hasattr(self, '_writes_star'):
+            direct: Dict[str, Set[str]] = {}
+            callees: Dict[str, Set[str]] = {}
+            for f in self.funcs:
+                ws: Set[str] = set()
+                cs: Set[str] = set()
+                for n in walk(self.func(f)):
+                    k = n.get('kind')
+                    if is_assign(n) or k == 'CompoundAssignOperator' or (k == 'UnaryOperator' and n.get('opcode') in ('++', '--')):
+                        l0 = strip(n['inner'][0])
+                        while l0.get('kind') in ('ArraySubscriptExpr',) or (l0.get('kind') == 'UnaryOperator' and l0.get('opcode') == '*'):
+                            l0 = strip(l0['inner'][0])
+                        if l0.get('kind') == 'MemberExpr':
+                            ws.add('.' + l0.get('name', ''))
+                    if k == 'CallExpr':
+                        cs.add(callee(n))
+                direct[f], callees[f] = ws, cs
+            star: Dict[str, Set[str]] = {f: set(direct[f]) for f in self.funcs}
+            changed = True
+            while changed:
+                changed = False
+                for f in self.funcs:
+                    for c in callees[f]:
+                        add = star.get(c, {'<call>'} if c.startswith('PyObject_Call') else ({'.flat', '.words'} if c in ('memcpy', 'memset') else set()))
+                        if not add <= star[f]:
+                            star[f] |= add
+                            changed = True
+            self._writes_star = star
+        if fname in self._writes_star:
+            return self._writes_star[fname]
+        if fname.startswith('PyObject_Call'):
+            return {'<call>'}
+        if fname in ('memcpy', 'memset'):
+            return {'.flat', '.words'}
+        return set()
+
+    # -- opt-in normaliser: single-definition call-free locals read as the expression they name
+    def inline_pure_locals(self, fname: str) -> int:
+        """from now on body(fname) is a copy in which every local that is defined exactly once, by its declaration initialiser, with a
+        call-free, side-effect-free expression whose operands are not assigned later in the function, is substituted into its uses
+        (`Slot* const slots = self->slots; .. slots[i]` reads `self->slots[i]`). The declarations stay. Returns the number of
+        locals substituted. src_of() of the copy renders the substituted text."""
+        import copy
+        body = copy.deepcopy(self.body(fname))
+        order = list(walk(body))
+        pos = {id(n): k for k, n in enumerate(order)}
+
+        def lvalue_key(n: Dict[str, Any]) -> Optional[str]:
+            n = strip(n)
+            if n.get('kind') == 'DeclRefExpr':
+                return n['referencedDecl']['name']
+            if n.get('kind') == 'MemberExpr':
+                return '.' + n.get('name', '')
+            if n.get('kind') in ('ArraySubscriptExpr',) and n.get('inner'):
+                return lvalue_key(n['inner'][0])
+            if n.get('kind') == 'UnaryOperator' and n.get('opcode') == '*' and n.get('inner'):
+                return lvalue_key(n['inner'][0])
+            return None
+        writes: List[Tuple[int, str]] = []          # (position, what is written: local name or .member)
+        addr_taken: Set[str] = set()
+        for n in order:
+            k = n.get('kind')
+            if is_assign(n) or k == 'CompoundAssignOperator' or (k == 'UnaryOperator' and n.get('opcode') in ('++', '--')):
+                key = lvalue_key(n['inner'][0])
+                if key:
+                    writes.append((pos[id(n)], key))
+            if k == 'UnaryOperator' and n.get('opcode') == '&' and strip(n['inner'][0]).get('kind') == 'DeclRefExpr':
+                addr_taken.add(strip(n['inner'][0])['referencedDecl']['name'])          # &local (not &local[i]: that is an element)
+            if k == 'CallExpr':
+                # a call writes the members its (transitive, unit-local) callees store into; a Python callback may re-enter anything
+                for key in self.members_written_by_call(callee(n)):
+                    writes.append((pos[id(n)], key))
+        # definitions: a declaration initialiser, or - for a local declared without one - its only assignment, when that is a
+        # top-level statement of the function (it then dominates everything after it)
+        top_level = {id(x) for x in body.get('inner', []) if isinstance(x, dict)}
+        defs_: List[Tuple[str, Dict[str, Any], Dict[str, Any]]] = []          # (name, defining node, value)
+        for n in order:
+            if n.get('kind') == 'VarDecl':
+                init = [c for c in n.get('inner', []) or [] if isinstance(c, dict) and c.get('kind')]
+                if init:
+                    defs_.append((n['name'], n, init[-1]))
+        for n in order:
+            if is_assign(n) and id(n) in top_level and strip(n['inner'][0]).get('kind') == 'DeclRefExpr':
+                nm = strip(n['inner'][0])['referencedDecl']['name']
+                if strip(n['inner'][0])['referencedDecl'].get('kind') == 'VarDecl' and sum(1 for _, key in writes if key == nm) == 1 \
+                        and not any(dn == nm for dn, _, _ in defs_):
+                    defs_.append((nm, n, n['inner'][1]))
+        loops_ = [n for n in order if n.get('kind') in ('ForStmt', 'WhileStmt', 'DoStmt')]
+
+        def in_same_loop(a: Dict[str, Any], b: Dict[str, Any]) -> bool:
+            return any(any(x is a for x in walk(lp)) and any(x is b for x in walk(lp)) for lp in loops_)
+        done = 0
+        for name, d, val in defs_:
+            own_write = 1 if is_assign(d) else 0
+            if name in addr_taken or sum(1 for _, key in writes if key == name) != own_write:
+                continue
+            if any(x.get('kind') in ('CallExpr', 'CompoundAssignOperator') or is_assign(x) or
+                   (x.get('kind') == 'UnaryOperator' and x.get('opcode') in ('++', '--')) for x in walk(val)):
+                continue
+            if strip(val).get('kind') in ('InitListExpr', 'StringLiteral'):
+                continue
+            reads = set()
+            for x in walk(val):
+                if x.get('kind') == 'DeclRefExpr':
+                    reads.add(x['referencedDecl']['name'])
+                elif x.get('kind') == 'MemberExpr':
+                    reads.add('.' + x.get('name', ''))
+            has_member = any(r.startswith('.') for r in reads)
+            dpos = pos[id(d)]
+            uses = [x for x in order if x.get('kind') == 'DeclRefExpr' and x.get('referencedDecl', {}).get('name') == name
+                    and x.get('referencedDecl', {}).get('kind') == 'VarDecl' and pos[id(x)] > dpos and not (is_assign(d) and x is strip(d['inner'][0]))]
+            if not uses:
+                continue
+            last_use = max(pos[id(x)] for x in uses)
+            wnodes = [(p_, key, order[p_]) for p_, key in writes if p_ > dpos and (key in reads or (key == '<call>' and has_member))
+                      and not (is_assign(d) and order[p_] is d)]
+            # an operand written between the definition and a use - or later, but in a loop that also holds a use - blocks it
+            if any(p_ < last_use or any(in_same_loop(wn, u) for u in uses) for p_, key, wn in wnodes):
+                continue
+            txt = self.src_of(val)
+            simple = strip(val).get('kind') in ('DeclRefExpr', 'IntegerLiteral', 'MemberExpr')
+
+            def subst(node: Dict[str, Any]) -> bool:
+                dirty = False
+                inner = node.get('inner', []) or []
+                for i, ch in enumerate(inner):
+                    if not isinstance(ch, dict) or ch is d:
+                        continue
+                    if ch.get('kind') == 'DeclRefExpr' and ch.get('referencedDecl', {}).get('name') == name \
+                            and ch.get('referencedDecl', {}).get('kind') == 'VarDecl' and pos.get(id(ch), -1) > dpos:
+                        inner[i] = {'kind': 'ParenExpr', 'inner': [copy.deepcopy(val)], 'range': ch.get('range', {}), 'type': ch.get('type', {}),
+                                    '_orig': self._span(ch), '_as': txt if simple else f'({txt})'}
+                        dirty = True
+                    elif subst(ch):
+                        dirty = True
+                if dirty:
+                    node['_dirty'] = True
+                return dirty
+            if subst(body):
+                done += 1
+        if done:
+            def mark(n: Dict[str, Any]) -> bool:
+                dd = False
+                for ch in n.get('inner', []) or []:
+                    if isinstance(ch, dict):
+                        if mark(ch) or '_orig' in ch:
+                            dd = True
+                if dd:
+                    n['_dirty'] = True
+                return dd
+            mark(body)
+            if not hasattr(self, '_body_override'):
+                self._body_override = {}
+            self._body_override[fname] = body
+            stack = [body]
+            self._parent[id(body)] = self.func(fname)
+            while stack:
+                n = stack.pop()
+                for c in n.get('inner', []) or []:
+                    if isinstance(c, dict):
+                        self._parent[id(c)] = n
+                        stack.append(c)
+        return done
+
     # -- opt-in normaliser: statement-level calls of unit-local void helpers read like the code they were extracted from
     def inline_void_helpers(self, fname: str, keep: Sequence[str] = (), depth: int = 2) -> None:
         """from now on body(fname) is a copy in which every statement that is just a call of a unit-local `void` helper (not in
